@@ -173,7 +173,7 @@ func runC07(cfg *vh.Config) error {
 		Check:  "c07_check",
 	}
 	ff := &vh.CasesFile{
-		Header: "From Coq Require Import String List NArith ZArith.\nFrom J5V.model Require Import BclLexer CmpbFields CmpbDecls CmpbFront CmpbWalker CmpbFrontCorr.",
+		Header: "From Coq Require Import String List NArith ZArith.\nFrom J5V.model Require Import Entity.\nFrom J5V.model Require Import BclLexer CmpbFields CmpbDecls CmpbFront CmpbWalker CmpbPackage CmpbEntity CmpbFrontCorr.",
 		Type:   "c07fcase",
 		Check:  "c07f_check",
 	}
@@ -651,6 +651,18 @@ func runC07(cfg *vh.Config) error {
 		ft, fr := runFront(cfg, res, &caseNo, texts, how)
 		ff.Terms = append(ff.Terms, ft...)
 		frontRecs = append(frontRecs, fr...)
+	}
+	// ---- stream 7: entity declarations against model/CmpbEntity.v (expansion by the ent family's model)
+	{
+		et, er := runEntities(cfg, res, &caseNo)
+		ff.Terms = append(ff.Terms, et...)
+		frontRecs = append(frontRecs, er...)
+	}
+	// ---- stream 6: package loading (import graphs with missing packages and cycles) against model/CmpbPackage.v
+	{
+		pt, pr := runPkgLoad(cfg, res, &caseNo)
+		ff.Terms = append(ff.Terms, pt...)
+		frontRecs = append(frontRecs, pr...)
 	}
 
 	res.Evaluations = caseNo
